@@ -17,6 +17,23 @@
 // answered with the items after i; the attempt token only chooses the fault: terr (transport error),
 // st<code> (status), ok:<cut>:<term> (200, body = first <cut> bytes of what a faithful server would send,
 // then eof | err | hang).  An exhausted script answers terr.
+//
+// Fault kinds of a transport error (script token terr:<sub>; the x record says `terr is=<c><d><t>`: what the
+// error http.Client.Do returned answers to errors.Is(context.Canceled) / errors.Is(context.DeadlineExceeded) /
+// net.Error.Timeout(), MEASURED on the error value): dialto (a genuine *net.OpError dial timeout through a real
+// http.Transport), hdrto (net/http's "timeout awaiting response headers": a real http.Transport with
+// ResponseHeaderTimeout over a net.Pipe whose far end never answers), clito (a real http.Client whose Timeout
+// elapses), canc (a real http.Client whose request context - not the caller's - was cancelled), eof (the far end
+// of a net.Pipe closes without answering), refused (*net.OpError ECONNREFUSED).  All are produced by a nested
+// real client and returned by the scripted RoundTripper, so the SDK's client wraps them in a *url.Error.
+// The caller's own context (call streams only): ctxc (cancelled while the attempt is in flight), ctxd (its
+// deadline passes while the attempt is in flight), ctxw (cancelled during the back-off wait: no request goes
+// out; recorded as `c t=<µs>`).
+// Foreign answers to the resumption GET (script token fj:<variant>:<term>; the x record says
+// `ok:0:<term> code=<status> ct=<content type> junk=x<hex of the body>`): 204, json (200 application/json with
+// the call's response as a JSON body), jsonl (the same with a trailing newline), ssejson (the JSON body under
+// text/event-stream).  None of these bodies contains an SSE event (the driver checks that the model's scanner
+// makes of them what it makes of an empty body), so for the monitor they are bodies without progress.
 package mcp
 
 import (
@@ -27,6 +44,7 @@ import (
 	"fmt"
 	"io"
 	"math/rand"
+	"net"
 	"net/http"
 	"net/http/httptest"
 	"os"
@@ -34,6 +52,7 @@ import (
 	"strconv"
 	"strings"
 	"sync"
+	"syscall"
 	"testing"
 	"testing/synctest"
 	"time"
@@ -53,7 +72,8 @@ type csItem struct {
 }
 
 type csAttempt struct {
-	kind   string // terr | st | ok
+	kind   string // terr | st | ok | ctx | fj
+	sub    string // terr: fault kind ("" = a plain error); ctx: c | d | w; fj: 204 | json | jsonl | ssejson
 	status int
 	cut    int
 	term   string // eof | err | hang
@@ -62,17 +82,45 @@ type csAttempt struct {
 func (a csAttempt) String() string {
 	switch a.kind {
 	case "terr":
+		if a.sub != "" {
+			return "terr:" + a.sub
+		}
 		return "terr"
+	case "ctx":
+		return "ctx" + a.sub
+	case "fj":
+		return fmt.Sprintf("fj:%s:%s", a.sub, a.term)
 	case "st":
 		return fmt.Sprintf("st%d", a.status)
 	}
 	return fmt.Sprintf("ok:%d:%s", a.cut, a.term)
 }
 
+var csTerrSubs = []string{"", "dialto", "hdrto", "clito", "canc", "eof", "refused"}
+
 func csParseAttempt(s string) (csAttempt, error) {
 	switch {
 	case s == "terr":
 		return csAttempt{kind: "terr"}, nil
+	case strings.HasPrefix(s, "terr:"):
+		for _, k := range csTerrSubs {
+			if k != "" && s[5:] == k {
+				return csAttempt{kind: "terr", sub: k}, nil
+			}
+		}
+		return csAttempt{}, fmt.Errorf("bad attempt %q", s)
+	case s == "ctxc" || s == "ctxd" || s == "ctxw":
+		return csAttempt{kind: "ctx", sub: s[3:]}, nil
+	case strings.HasPrefix(s, "fj:"):
+		p := strings.Split(s, ":")
+		if len(p) != 3 || (p[2] != "eof" && p[2] != "err") {
+			return csAttempt{}, fmt.Errorf("bad attempt %q", s)
+		}
+		switch p[1] {
+		case "204", "json", "jsonl", "ssejson":
+			return csAttempt{kind: "fj", sub: p[1], term: p[2]}, nil
+		}
+		return csAttempt{}, fmt.Errorf("bad attempt %q", s)
 	case strings.HasPrefix(s, "st"):
 		n, err := strconv.Atoi(s[2:])
 		return csAttempt{kind: "st", status: n}, err
@@ -283,12 +331,14 @@ func (b *csBody) end() error {
 func (b *csBody) Close() error { return nil }
 
 type csExchange struct {
+	rec     string // "x" an HTTP exchange | "c" the caller's context was cancelled while no request was in flight
 	k       int
 	attempt string
 	from    string
 	us      int64 // start, µs of virtual time
 	end     int64 // when the exchange was over for the client
 	lei     string
+	extra   string // further fields of the op (` is=<c><d><t>` of a transport error; ` code= ct= junk=` of a foreign answer)
 }
 
 type csServer struct {
@@ -303,6 +353,7 @@ type csServer struct {
 	connected chan struct{}
 	sent   int // high-water mark of bytes of the full stream handed to the client (for header-less standalone GETs)
 	bad    []string
+	cancelCall func() // ends the caller's context (ctxc / ctxw)
 }
 
 func (sv *csServer) json(req *http.Request, status int, body string) *http.Response {
@@ -315,27 +366,125 @@ func (sv *csServer) json(req *http.Request, status int, body string) *http.Respo
 		Proto: "HTTP/1.1", ProtoMajor: 1, ProtoMinor: 1}
 }
 
+// ---- genuine transport errors
+
+var csDialTimeout error // a genuine dial timeout of package net (made once, outside every bubble)
+
+func csInitFaults(t *testing.T) {
+	d := net.Dialer{Deadline: time.Now().Add(-time.Second)}
+	conn, err := d.Dial("tcp", "127.0.0.1:9")
+	if err == nil {
+		conn.Close()
+		t.Fatal("verif: dial with an expired deadline succeeded")
+	}
+	csDialTimeout = err
+}
+
+type csBlackhole struct{}
+
+func (csBlackhole) RoundTrip(req *http.Request) (*http.Response, error) {
+	<-req.Context().Done()
+	return nil, req.Context().Err()
+}
+
+// csFault produces the error of a failed attempt with a nested REAL client and says what the error answers to
+// the tests a retry loop could apply to it.  The caller's context is live throughout (the nested request uses a
+// context of its own, derived from Background).
+func csFault(sub string) (err error, is string) {
+	bg := context.Background()
+	req, _ := http.NewRequestWithContext(bg, http.MethodGet, "http://verif.invalid/mcp", nil)
+	pipe := func(far func(net.Conn)) *http.Transport {
+		return &http.Transport{DisableKeepAlives: true, ResponseHeaderTimeout: 5 * time.Second,
+			DialContext: func(ctx context.Context, network, addr string) (net.Conn, error) {
+				cl, sv := net.Pipe()
+				go far(sv)
+				return cl, nil
+			}}
+	}
+	switch sub {
+	case "dialto":
+		tr := &http.Transport{DisableKeepAlives: true, DialContext: func(ctx context.Context, network, addr string) (net.Conn, error) { return nil, csDialTimeout }}
+		_, err = (&http.Client{Transport: tr}).Do(req)
+	case "hdrto":
+		tr := pipe(func(c net.Conn) { io.Copy(io.Discard, c); c.Close() })
+		_, err = (&http.Client{Transport: tr}).Do(req)
+		tr.CloseIdleConnections()
+	case "clito":
+		_, err = (&http.Client{Transport: csBlackhole{}, Timeout: 7 * time.Second}).Do(req)
+	case "canc":
+		ictx, cancel := context.WithCancel(bg)
+		cancel()
+		_, err = (&http.Client{Transport: csBlackhole{}}).Do(req.Clone(ictx))
+	case "eof":
+		tr := pipe(func(c net.Conn) { b := make([]byte, 1); c.Read(b); c.Close() })
+		_, err = (&http.Client{Transport: tr}).Do(req)
+		tr.CloseIdleConnections()
+	case "refused":
+		err = &net.OpError{Op: "dial", Net: "tcp", Err: syscall.ECONNREFUSED}
+	default:
+		err = errors.New("verif: dial failed")
+	}
+	if err == nil {
+		err = errors.New("verif: fault " + sub + " produced no error")
+	}
+	bit := func(b bool) string {
+		if b {
+			return "1"
+		}
+		return "0"
+	}
+	var ne net.Error
+	return err, bit(errors.Is(err, context.Canceled)) + bit(errors.Is(err, context.DeadlineExceeded)) + bit(errors.As(err, &ne) && ne.Timeout())
+}
+
+func (sv *csServer) now() int64 { return time.Since(sv.start).Microseconds() }
+
+// sawCtxd: an attempt during which the caller's deadline passes (ctxd) has been made
+func (sv *csServer) sawCtxd() bool {
+	sv.mu.Lock()
+	defer sv.mu.Unlock()
+	for _, x := range sv.xs {
+		if strings.HasPrefix(x.attempt, "ctxd") {
+			return true
+		}
+	}
+	return false
+}
+
+// afterExchange: an exchange is over for the client. If the script says that the caller's context is cancelled
+// during the wait before the next attempt (ctxw), do that a moment later (the client is then inside
+// connectSSE's select; the shortest wait of any schedule is far longer).
+func (sv *csServer) afterExchange() {
+	sv.mu.Lock()
+	defer sv.mu.Unlock()
+	if sv.next < len(sv.s.script) && sv.s.script[sv.next].kind == "ctx" && sv.s.script[sv.next].sub == "w" {
+		sv.next++
+		time.AfterFunc(time.Millisecond, func() {
+			sv.mu.Lock()
+			now := sv.now()
+			sv.xs = append(sv.xs, csExchange{rec: "c", k: len(sv.xs), attempt: "ctxw", from: "-", us: now, end: now, lei: "-"})
+			sv.mu.Unlock()
+			if sv.cancelCall != nil {
+				sv.cancelCall()
+			}
+		})
+	}
+}
+
 // serve answers exchange k of the stream under test.
 func (sv *csServer) serve(req *http.Request, a csAttempt, scripted bool) (*http.Response, error) {
 	sv.mu.Lock()
-	defer sv.mu.Unlock()
 	k := len(sv.xs)
-	now := time.Since(sv.start).Microseconds()
-	x := csExchange{k: k, attempt: a.String(), from: "-", us: now, end: now, lei: "-"}
-	if !scripted {
-		x.attempt += "*"
-	}
+	now := sv.now()
+	x := csExchange{rec: "x", k: k, attempt: a.String(), from: "-", us: now, end: now, lei: "-"}
 	vals := req.Header.Values(lastEventIDHeader)
 	has := len(vals) > 0
 	if has {
 		x.lei = "x" + hxs(vals[0])
 	}
-	defer func() { sv.xs = append(sv.xs, x) }()
-	switch a.kind {
-	case "terr":
-		return nil, errors.New("verif: dial failed")
-	case "st":
-		return sv.json(req, a.status, ""), nil
+	star := ""
+	if !scripted {
+		star = "*"
 	}
 	// faithful replay position
 	from := -1
@@ -363,27 +512,96 @@ func (sv *csServer) serve(req *http.Request, a csAttempt, scripted bool) (*http.
 			}
 		}
 	}
-	if from < 0 {
-		x.from = "unknown"
-		return sv.json(req, http.StatusBadRequest, ""), nil
+	if a.kind == "ctx" && a.sub == "w" {
+		a.sub = "c" // a request did go out: the context is cancelled while it is in flight
 	}
-	x.from = strconv.Itoa(from)
-	data := sv.full[sv.off[from]:]
-	if a.cut < len(data) {
-		data = data[:a.cut]
+	var resp *http.Response
+	slow := false // the answer takes (virtual) time: computed without the lock
+	switch a.kind {
+	case "terr":
+		x.attempt = "terr" + star
+		slow = true
+	case "ctx":
+		x.attempt = "ctx" + a.sub + star
+		slow = true
+	case "st":
+		x.attempt += star
+		resp = sv.json(req, a.status, "")
+	case "ok", "fj":
+		if from < 0 {
+			x.attempt = fmt.Sprintf("ok:%d:%s", a.cut, a.term) + star
+			x.from = "unknown"
+			resp = sv.json(req, http.StatusBadRequest, "")
+			break
+		}
+		x.from = strconv.Itoa(from)
+		h := http.Header{}
+		h.Set("Content-Type", "text/event-stream")
+		h.Set(sessionIDHeader, "sess")
+		status := 200
+		var data []byte
+		if a.kind == "fj" {
+			x.attempt = fmt.Sprintf("ok:0:%s", a.term) + star
+			ct := "sse"
+			switch a.sub {
+			case "204":
+				status, ct = http.StatusNoContent, "-"
+				h.Del("Content-Type")
+			case "json":
+				data, ct = []byte(csResp()), "json"
+				h.Set("Content-Type", "application/json")
+			case "jsonl":
+				data, ct = []byte(csResp()+"\n"), "json"
+				h.Set("Content-Type", "application/json; charset=utf-8")
+			case "ssejson":
+				data = []byte(csResp())
+			}
+			x.extra = fmt.Sprintf(" code=%d ct=%s junk=x%s", status, ct, hx(data))
+		} else {
+			x.attempt += star
+			data = sv.full[sv.off[from]:]
+			if a.cut < len(data) {
+				data = data[:a.cut]
+			}
+			if e := sv.off[from] + len(data); e > sv.sent {
+				sv.sent = e
+			}
+		}
+		resp = &http.Response{StatusCode: status, Status: http.StatusText(status), Header: h, Request: req, Proto: "HTTP/1.1", ProtoMajor: 1, ProtoMinor: 1,
+			Body: &csBody{data: data, term: a.term, chunk: sv.s.chunk, ctx: req.Context(), gate: sv.gate(k), onEnd: func() {
+				sv.mu.Lock()
+				sv.xs[k].end = sv.now()
+				sv.mu.Unlock()
+				sv.afterExchange()
+			}}}
 	}
-	if e := sv.off[from] + len(data); e > sv.sent {
-		sv.sent = e
+	sv.xs = append(sv.xs, x)
+	sv.mu.Unlock()
+	if !slow {
+		return resp, nil
 	}
-	h := http.Header{}
-	h.Set("Content-Type", "text/event-stream")
-	h.Set(sessionIDHeader, "sess")
-	return &http.Response{StatusCode: 200, Status: "OK", Header: h, Request: req, Proto: "HTTP/1.1", ProtoMajor: 1, ProtoMinor: 1,
-		Body: &csBody{data: data, term: a.term, chunk: sv.s.chunk, ctx: req.Context(), gate: sv.gate(k), onEnd: func() {
-			sv.mu.Lock()
-			sv.xs[k].end = time.Since(sv.start).Microseconds()
-			sv.mu.Unlock()
-		}}}, nil
+	var err error
+	extra := ""
+	if a.kind == "terr" {
+		var is string
+		err, is = csFault(a.sub)
+		extra = " is=" + is
+	} else {
+		// the caller's context ends while the request is in flight: the scripted server never answers
+		if a.sub == "c" && sv.cancelCall != nil {
+			time.AfterFunc(time.Millisecond, sv.cancelCall)
+		}
+		<-req.Context().Done()
+		err = req.Context().Err()
+	}
+	sv.mu.Lock()
+	sv.xs[k].end = sv.now()
+	sv.xs[k].extra = extra
+	sv.mu.Unlock()
+	if a.kind == "terr" {
+		sv.afterExchange()
+	}
+	return nil, err
 }
 
 // gate: the first body of the standalone stream is held back until Connect has returned.
@@ -494,27 +712,21 @@ func csErrKind(err error) string {
 		return "reconnect"
 	case errors.Is(err, ErrSessionMissing) || strings.Contains(m, ErrSessionMissing.Error()):
 		return "session-missing"
-	case strings.Contains(m, "Bad Request"):
-		return "st400"
-	case strings.Contains(m, "Service Unavailable"):
-		return "st503"
-	case strings.Contains(m, "Internal Server Error"):
-		return "st500"
-	case strings.Contains(m, "Bad Gateway"):
-		return "st502"
-	case strings.Contains(m, "Gateway Timeout"):
-		return "st504"
-	case strings.Contains(m, "Too Many Requests"):
-		return "st429"
-	case strings.Contains(m, "Method Not Allowed"):
-		return "st405"
-	case strings.Contains(m, "Forbidden"):
-		return "st403"
-	case errors.Is(err, context.Canceled) || strings.Contains(m, "context canceled"):
+	}
+	for _, c := range csStatuses {
+		if strings.Contains(m, http.StatusText(c)) {
+			return fmt.Sprintf("st%d", c)
+		}
+	}
+	if errors.Is(err, context.Canceled) || strings.Contains(m, "context canceled") ||
+		errors.Is(err, context.DeadlineExceeded) || strings.Contains(m, "context deadline exceeded") {
 		return "ctx"
 	}
 	return "other:" + hxs(m)
 }
+
+// the statuses a scripted answer can carry (404 is reported as session-missing)
+var csStatuses = []int{400, 503, 500, 502, 504, 429, 405, 403, 401, 406, 300, 301, 304}
 
 type csResult struct {
 	xs        []csExchange
@@ -526,6 +738,7 @@ type csResult struct {
 }
 
 const csHorizon = 12 * time.Hour // virtual; far beyond any back-off schedule of a scenario
+const csCallDeadline = 2 * time.Hour // virtual; the deadline of the caller's context in scenarios with a ctxd attempt
 
 func csRun(t *testing.T, s *csScenario) (res csResult) {
 	res.leak = "none"
@@ -579,6 +792,21 @@ func csRun(t *testing.T, s *csScenario) (res csResult) {
 				return
 			}
 			close(sv.connected)
+			// the caller's context of the call under test: the script may cancel it (ctxc, ctxw) or let its
+			// deadline pass while a reconnect attempt is in flight (ctxd)
+			callCtx, cancelCall := context.WithCancel(ctx)
+			defer cancelCall()
+			for _, a := range s.script {
+				if a.kind == "ctx" && a.sub == "d" {
+					var stop func()
+					callCtx, stop = context.WithTimeout(callCtx, csCallDeadline)
+					defer stop()
+					break
+				}
+			}
+			sv.mu.Lock()
+			sv.cancelCall = cancelCall
+			sv.mu.Unlock()
 			type outcome struct {
 				end   string
 				atret int
@@ -586,8 +814,13 @@ func csRun(t *testing.T, s *csScenario) (res csResult) {
 			done := make(chan outcome, 1)
 			call := func() string {
 				if s.kind == "post" {
-					r, err := cs.CallTool(ctx, &CallToolParams{Name: "t"})
+					r, err := cs.CallTool(callCtx, &CallToolParams{Name: "t"})
 					if err != nil {
+						if errors.Is(err, context.DeadlineExceeded) && !sv.sawCtxd() {
+							// the call stayed blocked until the caller's deadline (csCallDeadline of virtual time,
+							// every goroutine blocked) although no attempt was in flight at that moment
+							return "hang"
+						}
 						return "err:" + csErrKind(err)
 					}
 					if len(r.Content) == 1 {
@@ -597,7 +830,7 @@ func csRun(t *testing.T, s *csScenario) (res csResult) {
 					}
 					return "result:?"
 				}
-				if err := cs.Ping(ctx, nil); err != nil {
+				if err := cs.Ping(callCtx, nil); err != nil {
 					return "err:" + csErrKind(err)
 				}
 				return "ok"
@@ -673,6 +906,9 @@ func csTags(s *csScenario, r csResult) []string {
 		if a.kind == "st" {
 			set[fmt.Sprintf("script-st%d", a.status)] = true
 		}
+		if a.kind != "st" && a.kind != "ok" && a.sub != "" {
+			set["script-"+a.kind+"-"+a.sub] = true
+		}
 	}
 	set[fmt.Sprintf("exchanges-%d", min(len(r.xs), 9))] = true
 	set[fmt.Sprintf("mr%d", s.mr)] = true
@@ -693,7 +929,19 @@ func csEmit(out *verifOut, cs string, s *csScenario, r csResult, extra ...string
 	tags := append(csTags(s, r), extra...)
 	out.line(cs, s.op(), obs, tags...)
 	for _, x := range r.xs {
-		out.line(cs, fmt.Sprintf("x %d %s from=%s t=%d e=%d", x.k, x.attempt, x.from, x.us, x.end), "lei="+x.lei, "x-"+strings.SplitN(strings.TrimSuffix(x.attempt, "*"), ":", 2)[0])
+		if x.rec == "c" {
+			out.line(cs, fmt.Sprintf("c t=%d", x.us), "ok", "x-ctxw")
+			continue
+		}
+		tag := "x-" + strings.SplitN(strings.TrimSuffix(x.attempt, "*"), ":", 2)[0]
+		tags := []string{tag}
+		if strings.HasPrefix(x.extra, " is=") {
+			tags = append(tags, "terr-is"+x.extra[4:])
+		}
+		if strings.HasPrefix(x.extra, " code=") {
+			tags = append(tags, "x-foreign")
+		}
+		out.line(cs, fmt.Sprintf("x %d %s from=%s t=%d e=%d%s", x.k, x.attempt, x.from, x.us, x.end, x.extra), "lei="+x.lei, tags...)
 	}
 	dl := strings.Join(r.delivered, " ")
 	if dl == "" {
@@ -727,6 +975,7 @@ func csBaseLog(kind string) []csItem {
 func TestVerifClientStream(t *testing.T) {
 	out := verifOpen(t)
 	defer out.close()
+	csInitFaults(t)
 	if p := os.Getenv("VERIF_REPLAY"); p != "" {
 		csReplayFile(t, out, p, "replay")
 		return
@@ -811,6 +1060,9 @@ func csGenerate(emit func(*csScenario, string)) {
 		return csAttempt{kind: "ok", cut: 1 << 20, term: "eof"}
 	}
 	terms := []string{"eof", "err"}
+	// Under C01 this stream is asked one thing only - the pending call never stays blocked and gets no answer
+	// but its own -: the same families on a sample.
+	c01 := os.Getenv("VERIF_PROPERTY") == "C01"
 
 	// ---- family x: EVERY byte offset of the base stream x {eof, err} x reconnect outcomes
 	for _, kind := range []string{"post", "sa"} {
@@ -828,6 +1080,9 @@ func csGenerate(emit func(*csScenario, string)) {
 			{{kind: "ok", cut: 0, term: "err"}, {kind: "terr"}, rest},
 		}
 		for cut := 0; cut <= total; cut++ {
+			if c01 && cut%3 != 0 {
+				continue
+			}
 			for _, term := range terms {
 				for _, sc := range scripts {
 					put(&csScenario{kind: kind, mr: 2, log: base.log, first: csAttempt{kind: "ok", cut: cut, term: term}, script: sc}, "x"+kind)
@@ -838,7 +1093,7 @@ func csGenerate(emit func(*csScenario, string)) {
 
 	// ---- family d: two cuts. quick: a seeded sample of first cuts x EVERY second offset; thorough: a two-event
 	// stream with EVERY pair of offsets, plus a larger sample on the base stream.
-	{
+	if !c01 {
 		rng := verifRng(101)
 		for _, kind := range []string{"post", "sa"} {
 			log := csBaseLog(kind)
@@ -906,6 +1161,9 @@ func csGenerate(emit func(*csScenario, string)) {
 			maxLen = 7
 			mrs = []int{1, 2, 3}
 		}
+		if c01 {
+			maxLen, mrs = maxLen-1, []int{2}
+		}
 		for _, kind := range []string{"post", "sa"} {
 			log := csLongLog(kind)
 			base := &csScenario{kind: kind, log: log}
@@ -932,7 +1190,12 @@ func csGenerate(emit func(*csScenario, string)) {
 					for _, c := range sq {
 						switch c {
 						case 'T':
-							sc = append(sc, csAttempt{kind: "terr"})
+							// every third scenario uses the timeout-kind faults instead of plain errors
+							sub := ""
+							if k%3 == 0 {
+								sub = csTerrSubs[(k/3+len(sc))%len(csTerrSubs)]
+							}
+							sc = append(sc, csAttempt{kind: "terr", sub: sub})
 						case 'E':
 							sc = append(sc, csAttempt{kind: "ok", cut: 0, term: terms[k%2]})
 						case 'P':
@@ -993,11 +1256,108 @@ func csGenerate(emit func(*csScenario, string)) {
 		}
 	}
 
+	// ---- family t: fault KINDS of the reconnect attempts. A sample of cuts of the base stream (every event
+	// boundary and two offsets inside every event) x {eof, err} x scripts whose failed attempts are genuine
+	// timeout-kind errors (they answer errors.Is(context.DeadlineExceeded) / Is(context.Canceled) although the
+	// caller's context is live), within and beyond the budget; and the controls: the caller's own context is
+	// cancelled / times out (call streams), after which no further attempt may be made.
+	for _, kind := range []string{"post", "sa"} {
+		base := &csScenario{kind: kind, log: csBaseLog(kind)}
+		off := base.offsets()
+		rest := finalOf(kind)
+		var cuts []int
+		for i := 1; i < len(off); i++ {
+			cuts = append(cuts, off[i])
+			if i < len(off)-1 {
+				w := off[i+1] - off[i]
+				cuts = append(cuts, off[i]+1+w/3, off[i]+w-1)
+			}
+		}
+		te := func(sub string) csAttempt { return csAttempt{kind: "terr", sub: sub} }
+		var scripts [][]csAttempt
+		for _, sub := range csTerrSubs[1:] {
+			scripts = append(scripts, []csAttempt{te(sub), rest})
+		}
+		scripts = append(scripts,
+			[]csAttempt{te("hdrto"), te("dialto"), rest},
+			[]csAttempt{te(""), te("clito"), rest},
+			[]csAttempt{te("canc"), te("refused"), rest},
+			[]csAttempt{te("dialto"), {kind: "ok", cut: 0, term: "eof"}, te("hdrto"), te("clito"), rest},
+			[]csAttempt{te("dialto"), te("hdrto"), te("clito"), rest}, // mr = 3: one more than the budget
+			[]csAttempt{te("canc"), te("canc"), te("canc"), rest},
+		)
+		if kind == "post" {
+			cx := func(sub string) csAttempt { return csAttempt{kind: "ctx", sub: sub} }
+			scripts = append(scripts,
+				[]csAttempt{cx("c"), rest},
+				[]csAttempt{cx("d"), rest},
+				[]csAttempt{cx("w"), rest},
+				[]csAttempt{te("dialto"), cx("c"), rest},
+				[]csAttempt{te("hdrto"), cx("w"), rest},
+				[]csAttempt{te(""), cx("d"), rest},
+				[]csAttempt{{kind: "ok", cut: 0, term: "err"}, cx("w"), rest},
+			)
+		}
+		for ci, cut := range cuts {
+			for ti, term := range terms {
+				for si, sc := range scripts {
+					if !thorough && (ci+ti+si)%2 == 1 && len(sc) > 2 {
+						continue
+					}
+					put(&csScenario{kind: kind, mr: 3, log: base.log, first: csAttempt{kind: "ok", cut: cut, term: term}, script: sc}, "t"+kind)
+				}
+			}
+		}
+	}
+
+	// ---- family f: answers to the resumption GET that the SDK's own server never gives (a foreign server):
+	// refusals 405 / 400 / 401 / 403 / 406, 3xx without a Location, 204, 200 with application/json, 200 with an
+	// empty or event-less SSE body. Each must end in a failed call (never a hang) or, for the event-less 2xx
+	// bodies within the budget, in a correct resume.
+	for _, kind := range []string{"post", "sa"} {
+		base := &csScenario{kind: kind, log: csBaseLog(kind)}
+		off := base.offsets()
+		rest := finalOf(kind)
+		var answers []csAttempt
+		for _, c := range []int{405, 400, 401, 403, 406, 300, 301, 304} {
+			answers = append(answers, csAttempt{kind: "st", status: c})
+		}
+		for _, v := range []string{"204", "json", "jsonl", "ssejson"} {
+			answers = append(answers, csAttempt{kind: "fj", sub: v, term: "eof"})
+		}
+		answers = append(answers, csAttempt{kind: "fj", sub: "json", term: "err"}, csAttempt{kind: "ok", cut: 0, term: "eof"})
+		var cuts []int
+		for i := 1; i < len(off); i++ {
+			cuts = append(cuts, off[i])
+			if i < len(off)-1 {
+				cuts = append(cuts, off[i]+(off[i+1]-off[i])/2)
+			}
+		}
+		for ci, cut := range cuts {
+			for ti, term := range terms {
+				for ai, a := range answers {
+					if !thorough && (ci+ti+ai)%2 == 1 {
+						continue
+					}
+					put(&csScenario{kind: kind, mr: 2, log: base.log, first: csAttempt{kind: "ok", cut: cut, term: term}, script: []csAttempt{a, rest}}, "f"+kind)
+					if a.kind != "st" {
+						// beyond the budget: three event-less answers in a row
+						put(&csScenario{kind: kind, mr: 2, log: base.log, first: csAttempt{kind: "ok", cut: cut, term: term}, script: []csAttempt{a, a, a, rest}}, "f"+kind)
+						put(&csScenario{kind: kind, mr: 2, log: base.log, first: csAttempt{kind: "ok", cut: cut, term: term}, script: []csAttempt{a, {kind: "terr", sub: "hdrto"}, a, rest}}, "f"+kind)
+					}
+				}
+			}
+		}
+	}
+
 	// ---- family r: random streams, cuts, scripts and budgets
 	{
 		n := 2500
 		if thorough {
 			n = 60000
+		}
+		if c01 {
+			n = n / 3
 		}
 		for i := 0; i < n; i++ {
 			rng := verifRng(int64(5000 + i))
@@ -1078,11 +1438,17 @@ func csRandom(rng *rand.Rand) *csScenario {
 	term := func() string { return []string{"eof", "err"}[rng.Intn(2)] }
 	s.first = csAttempt{kind: "ok", cut: cutAt(), term: term()}
 	for i, n := 0, rng.Intn(7); i < n; i++ {
-		switch r := rng.Intn(10); {
-		case r < 3:
+		switch r := rng.Intn(12); {
+		case r < 2:
 			s.script = append(s.script, csAttempt{kind: "terr"})
 		case r < 4:
-			s.script = append(s.script, csAttempt{kind: "st", status: []int{503, 404, 400, 500, 429, 502, 504, 403, 405}[rng.Intn(9)]})
+			s.script = append(s.script, csAttempt{kind: "terr", sub: csTerrSubs[rng.Intn(len(csTerrSubs))]})
+		case r < 5:
+			s.script = append(s.script, csAttempt{kind: "st", status: []int{503, 404, 400, 500, 429, 502, 504, 403, 405, 401, 406, 300, 301, 304}[rng.Intn(14)]})
+		case r < 6:
+			s.script = append(s.script, csAttempt{kind: "fj", sub: []string{"204", "json", "jsonl", "ssejson"}[rng.Intn(4)], term: term()})
+		case r < 7 && kind == "post" && rng.Intn(2) == 0:
+			s.script = append(s.script, csAttempt{kind: "ctx", sub: []string{"c", "d", "w"}[rng.Intn(3)]})
 		default:
 			s.script = append(s.script, csAttempt{kind: "ok", cut: cutAt(), term: term()})
 		}
